@@ -189,6 +189,8 @@ class Ctx:
         import sym
         import summaries
         eng = sym.Engine(self.mir(crate), self.enums(), **kw)
+        sib = {"libxcp": ["libfs"], "xcp": ["libxcp", "libfs"]}.get(crate, [])
+        eng.sibling_loader = lambda: [self.mir(c) for c in sib]
         summaries.install_common(eng)
         self.engines.append(eng)
         return eng
